@@ -1554,12 +1554,14 @@ func (v *VM) execute(ctx *Context, op opcode.Opcode, parameter []byte) (err erro
 			index := t.Index(key.Item())
 			// No error on missing key.
 			if index >= 0 {
-				if t.IsReferenced() {
-					elems := t.Value().([]stackitem.MapElement)
-					v.refs.Remove(elems[index].Key)
-					v.refs.Remove(elems[index].Value)
-				}
+				// Drop the element first: removing the last reference to the map
+				// itself (a value can be the map) walks through the remaining elements.
+				el := t.Value().([]stackitem.MapElement)[index]
 				t.Drop(index)
+				if t.IsReferenced() {
+					v.refs.Remove(el.Key)
+					v.refs.Remove(el.Value)
+				}
 			}
 		default:
 			panic("REMOVE: invalid type")
